@@ -20,13 +20,70 @@ theorem cond_decompressData :
     Cond.C01_decompressData =
       ["estimatedSize > constants.MaxPacketBodySize", "err != nil", "n > int64(constants.MaxPacketBodySize)"] := by decide
 theorem cond_readPacketBody :
-    Cond.C01_readPacketBody = ["bodySize > constants.MaxPacketBodySize", "err != nil"] := by decide
-theorem cond_readPacketType : Cond.C01_readPacketType = ["err != nil", "n != constants.PacketTypeSize"] := by decide
+    Cond.C01_readPacketBody = ["bodySize > constants.MaxPacketBodySize", "err != nil && totalRead < int(bodySize)"] := by decide
+theorem cond_readPacketType : Cond.C01_readPacketType = ["n == constants.PacketTypeSize", "err != nil"] := by decide
 theorem cond_ReadPacket :
     Cond.C01_ReadPacket =
       ["err := ps.acquireReadLock(); err != nil", "err != nil", "packetType.IsHeartbeat()", "err != nil", "err != nil",
        "packetType.IsEncrypted()", "packetType.IsCompressed()", "err != nil",
        "packetType.IsJsonCommand() || packetType.IsCommandResp()", "err != nil"] := by decide
+
+theorem read_data_le (s : Src) (n : Nat) : (s.read n).data.length ≤ n := by
+  unfold Src.read
+  split
+  · simp
+  · split
+    · assumption
+    · simp only [List.length_take]; omega
+
+/-- **The end of the stream may arrive with the last bytes** (`io.Reader` allows `(n > 0, err)`; QUIC
+streams do it): the reader's outcome is the same as on a transport that reports the end separately —
+the byte is used before the error is looked at (fix cf50c4d). -/
+theorem readPacketG_eager (c : Codec) (s : Src) : readPacketG true c s = readPacketG false c s := by
+  simp only [readPacketG]
+  have hle := read_data_le s constants.PacketTypeSize
+  have hd : (s.readE true constants.PacketTypeSize).data = (s.readE false constants.PacketTypeSize).data := by
+    simp only [Src.readE]; split <;> simp
+  have hr : (s.readE true constants.PacketTypeSize).rest = (s.readE false constants.PacketTypeSize).rest := by
+    simp only [Src.readE]; split <;> simp
+  have hf : s.readE false constants.PacketTypeSize = s.read constants.PacketTypeSize := by simp [Src.readE]
+  rw [hd, hr]
+  rw [hf] at *
+  cases hdat : (s.read constants.PacketTypeSize).data with
+  | nil =>
+    -- nothing was read: the eager transport does not differ (`err` is unchanged when no data came)
+    have : (s.readE true constants.PacketTypeSize).err = (s.read constants.PacketTypeSize).err := by
+      simp [Src.readE, hdat]
+    simp only [this]
+  | cons a t =>
+    cases t with
+    | nil => simp only
+    | cons b t' =>
+      rw [hdat] at hle
+      simp only [List.length_cons, constants.PacketTypeSize] at hle
+      omega
+
+theorem C01_end_with_data (c : Codec) (f : Nat) (s : Src) : readAllG true c f s = readAll c f s := by
+  induction f generalizing s with
+  | zero => simp [readAllG, readAll]
+  | succ f ih =>
+    unfold readAllG readAll
+    rw [readPacketG_eager c s]
+    show (match readPacketG false c s with
+      | (.fail e, s') => (⟨[], e, s'.flat⟩ : Obs)
+      | (.pkt t b, s') => ⟨(t, b) :: (readAllG true c f s').pkts, (readAllG true c f s').stop, (readAllG true c f s').leftover⟩) = _
+    unfold readPacket
+    cases h : readPacketG false c s with
+    | mk o s' =>
+      cases o with
+      | fail e => rfl
+      | pkt t b => simp only [ih s']
+
+/-- As found, the error was looked at first: the type byte of a final heartbeat that arrives together
+with the end of the stream was dropped. -/
+theorem readPacketType_errFirst_witness :
+    readPacketTypeErrFirst true ⟨[[0x03]], .eof⟩ = none ∧ readPacketTypeErrFirst false ⟨[[0x03]], .eof⟩ = some 3 ∧
+    (readPacketG true ⟨id, some, some⟩ ⟨[[0x03]], .eof⟩).1 = .pkt 3 [] := by decide
 
 /-- **Chunk independence** for *every* byte stream (valid encoding or not): the
 packets returned, the failure stage and the bytes left unread depend only on the
